@@ -223,6 +223,104 @@ func c10(repo string, out *fg.Out) error {
 		}
 	}
 
+	// --- the affected-file scan covers EVERY listed parquet file: one batch call over the whole
+	// slice, or (if someone chunks it) every chunk's result appended.
+	faf, err := get("findAffectedFiles")
+	if err != nil {
+		return err
+	}
+	scanAll, scanShape := false, ""
+	var walk func(n ast.Node, inLoop bool)
+	walk = func(n ast.Node, inLoop bool) {
+		ast.Inspect(n, func(x ast.Node) bool {
+			switch v := x.(type) {
+			case *ast.ForStmt:
+				if v.Body != nil {
+					walk(v.Body, true)
+				}
+				return false
+			case *ast.RangeStmt:
+				// the listing filter loop is a range loop too; only calls matter
+				walk(v.Body, true)
+				return false
+			case *ast.AssignStmt:
+				if len(v.Rhs) != 1 {
+					return true
+				}
+				c, ok := v.Rhs[0].(*ast.CallExpr)
+				if !ok || fg.CalleeName(c) != "countMatchingRowsInFiles" || len(c.Args) != 3 {
+					return true
+				}
+				arg := norm(f.Text(c.Args[1]))
+				lhs := norm(f.Text(v.Lhs[0]))
+				switch {
+				case !inLoop && arg == "parquetFiles" && lhs == "affected":
+					scanAll, scanShape = true, "single batch over parquetFiles"
+				case inLoop:
+					// chunked: the chunk result must be accumulated, not assigned to `affected`
+					scanShape = "chunked: " + lhs + " = countMatchingRowsInFiles(" + arg + ")"
+					body := norm(f.Text(faf.Body))
+					scanAll = lhs != "affected" && strings.Contains(body, "affected = append(affected, "+lhs+"...)")
+				default:
+					scanShape = "unrecognised: " + lhs + " = countMatchingRowsInFiles(" + arg + ")"
+				}
+			}
+			return true
+		})
+	}
+	walk(faf.Body, false)
+	if scanShape == "" || strings.HasPrefix(scanShape, "unrecognised") {
+		return fmt.Errorf("findAffectedFiles: batch count call shape not recognised (%s)", scanShape)
+	}
+	chunk := int64(0)
+	for _, fl := range []*fg.File{f} {
+		env := fg.NewConstEnv([]*fg.File{fl})
+		for name, e := range env.Exprs {
+			if strings.Contains(strings.ToLower(name), "perquery") || strings.Contains(strings.ToLower(name), "chunk") || strings.Contains(strings.ToLower(name), "batchsize") {
+				if v, err := env.EvalInt(e); err == nil {
+					chunk = v
+				}
+			}
+		}
+	}
+	// --- the confirmed delete recomputes the affected set from storage: unconditional top-level
+	// `affected, err := h.findAffectedFiles(...)` in handleDelete, no handler state beyond the known
+	// fields, nothing stored on the handler in the dry-run branch.
+	rescans := false
+	for _, st := range fd3.Body.List {
+		if as, ok := st.(*ast.AssignStmt); ok && as.Tok == token.DEFINE &&
+			norm(f.Text(as)) == "affected, err := h.findAffectedFiles(ctx, req.Database, req.Measurement, req.Where)" {
+			rescans = true
+		}
+	}
+	var fields []string
+	ast.Inspect(f.AST, func(x ast.Node) bool {
+		ts, ok := x.(*ast.TypeSpec)
+		if !ok || ts.Name.Name != "DeleteHandler" {
+			return true
+		}
+		if st, ok := ts.Type.(*ast.StructType); ok {
+			for _, fl := range st.Fields.List {
+				for _, nm := range fl.Names {
+					fields = append(fields, nm.Name)
+				}
+			}
+		}
+		return false
+	})
+	if got, want := strings.Join(fields, ","), "db,storage,config,authManager,coordinator,tempDir,logger"; got != want {
+		return fmt.Errorf("DeleteHandler struct fields are [%s], expected [%s]: new handler state must be reviewed (a delete request must not depend on earlier requests)", got, want)
+	}
+	dryStateless := false
+	for _, st := range fd3.Body.List {
+		if is, ok := st.(*ast.IfStmt); ok && norm(f.Text(is.Cond)) == "req.DryRun" {
+			dryStateless = !regexp.MustCompile(`\bh\.`).MatchString(f.Text(is.Body))
+		}
+	}
+	if !dryStateless {
+		rescans = false
+	}
+
 	w := &out.Lean
 	fmt.Fprintf(w, "namespace Arc.Generated.C10\n")
 	fmt.Fprintf(w, "/-- How a keep filter treats the three-valued result of the user predicate. -/\n")
@@ -231,7 +329,19 @@ func c10(repo string, out *fg.Out) error {
 		fmt.Fprintf(w, "/-- delete.go template: `%s` -/\n", facts[k].Expr)
 		fmt.Fprintf(w, "def %s : Keep := .%s\n", k, facts[k].Kind)
 	}
+	bl := func(v bool) string {
+		if v {
+			return "true"
+		}
+		return "false"
+	}
+	fmt.Fprintf(w, "/-- findAffectedFiles: %s (chunk constant: %d; 0 = none) -/\n", scanShape, chunk)
+	fmt.Fprintf(w, "def affectedScanCoversAllFiles : Bool := %s\n", bl(scanAll))
+	fmt.Fprintf(w, "/-- handleDelete: unconditional `affected, err := h.findAffectedFiles(…)` for dry AND confirmed requests, dry-run branch touches no handler state -/\n")
+	fmt.Fprintf(w, "def confirmRescansStorage : Bool := %s\n", bl(rescans))
 	fmt.Fprintf(w, "end Arc.Generated.C10\n")
+	out.JSON["affected_scan"] = map[string]any{"covers_all": scanAll, "shape": scanShape, "chunk": chunk}
+	out.JSON["confirm_rescans_storage"] = rescans
 	for k, v := range facts {
 		out.JSON[k] = map[string]string{"kind": v.Kind, "expr": v.Expr}
 	}
